@@ -1,15 +1,18 @@
 #!/bin/bash
-# every corpus entry: 'fixed' must reproduce on the pinned tree (7f1da0b) and not on /repo; 'known' must reproduce on /repo
+# every corpus entry: 'fixed' must reproduce on the pinned tree 7f1da0b (or on the commit named by its old_commit field,
+# when an earlier defect masks it on the pinned tree) and not on /repo; 'known' must reproduce on /repo
 cd /verif
-[ -d /tmp/unfixed ] || git -C /repo worktree add -q --detach /tmp/unfixed 7f1da0b
 bad=0
 for f in replays/corpus/*/*.json; do
   st=$(/venv/bin/python -c "import json;print(json.load(open('$f'))['status'])")
-  a=$(VERIF_REPO=/tmp/unfixed /venv/bin/python -m dsim replay $f 2>&1 | head -1 | cut -c1-9)
+  oc=$(/venv/bin/python -c "import json;print(json.load(open('$f')).get('old_commit','7f1da0b'))")
+  wt=/tmp/unfixed_$oc; [ "$oc" = 7f1da0b ] && wt=/tmp/unfixed
+  [ -d $wt ] || git -C /repo worktree add -q --detach $wt $oc
+  a=$(VERIF_REPO=$wt /venv/bin/python -m dsim replay $f 2>&1 | head -1 | cut -c1-9)
   b=$(/venv/bin/python -m dsim replay $f 2>&1 | head -1 | cut -c1-9)
   ok=no
   [ "$st" = fixed ] && [ "$a" = VIOLATION ] && [ "$b" = NOT-REPRO ] && ok=yes
   [ "$st" = known ] && [ "$b" = VIOLATION ] && ok=yes
-  [ $ok = no ] && { echo "PROBLEM $st pinned=$a current=$b $f"; bad=$((bad+1)); }
+  [ $ok = no ] && { echo "PROBLEM $st old($oc)=$a current=$b $f"; bad=$((bad+1)); }
 done
 echo "corpus entries: $(ls replays/corpus/*/*.json | wc -l), problems: $bad"
